@@ -102,6 +102,10 @@ def run(tier='quick'):
                             max(order.index(e) for e in supported))
     # every 2.x setter and most 1.x setters read-modify-write a blob through decode / encode: an
     # asymmetric codec makes a setter of one field change another (value-flow treats codecs as transparent)
+    S4 = chk.rule('S4', 'a setter that fails leaves the observed values unchanged and the connection usable: the '
+                        'transaction guard the setters run under rolls back exactly when not committed', floor=4)
+    from . import c14
+    c14._guard_shape(prog, eff, chk, S4)
     G6 = chk.rule('G6', 'the codecs the setters read-modify-write through are symmetric: encoder and decoder agree '
                         'item by item and every stored member is written from itself; no member update is made on '
                         'a dropped local copy', floor=30)
